@@ -615,6 +615,11 @@ function describeObjectMember(
   };
 }
 
+const IDENTIFIER_PROPERTY_KEY = /^[A-Za-z_$][A-Za-z0-9_$]*$/;
+function printPropertyKey(key: string): string {
+  return IDENTIFIER_PROPERTY_KEY.test(key) ? key : JSON.stringify(key);
+}
+
 function describeIndexObjectMember(
   ctx: DescribeContext,
   key: Runtype,
@@ -2021,7 +2026,7 @@ export class ObjectRuntype extends BaseRuntype {
     const sortedKeys = Object.keys(this.properties).sort();
     const props = sortedKeys.map((k) => {
       const it = this.properties[k];
-      return describeObjectMember(ctx, k, it);
+      return describeObjectMember(ctx, printPropertyKey(k), it);
     });
 
     const indexProps = this.indexedPropertiesParser.map(({ key, value }) =>
